@@ -149,6 +149,10 @@ def _emit_logs(task):
                 print(msg, end='')                 # a line that is not (yet) terminated
             elif kind == 'U':
                 sys.stderr.write(msg)
+            elif kind == 'S':
+                print('  ' + msg)                  # a line that begins with whitespace
+            elif kind == 'V':
+                sys.stderr.write('\t' + msg + '\n')
 
 
 class Rich(list):
